@@ -40,6 +40,8 @@ Inductive sneed := SFree | SNeed (lk : lname) (m : mode) | SNever.
 
 (* pseudo lock: "the goroutine that owns this view" *)
 Definition own : lname := "own".
+(* pseudo lock that nobody ever acquires: "the object is not shared yet" (constructors) *)
+Definition unshared : lname := "unshared".
 
 Inductive sevent :=
 | SAcq (o : obj) (lk : lname) (m : mode)
@@ -92,9 +94,9 @@ Section Discipline.
     match assoc f tbl with
     | None => SNever
     | Some (CGuard lk) => match a with ARd => SNeed lk R | AWr => SNeed lk W | AAt => SNever end
-    | Some COwned => match a with ARd => SFree | AWr => SNeed own W | AAt => SNever end
-    | Some CImmutable => match a with ARd => SFree | _ => SNever end
-    | Some CAtomic => match a with AAt => SFree | ARd => SNeed own R | AWr => SNever end
+    | Some COwned => match a with ARd => SNeed own R | AWr => SNeed own W | AAt => SNever end
+    | Some CImmutable => match a with ARd => SFree | AWr => SNeed unshared W | AAt => SNever end
+    | Some CAtomic => match a with AAt => SFree | ARd => SNeed own R | AWr => SNeed unshared W end
     end.
 
   Definition kf_ok (fn : string) (f : field) : bool :=
@@ -176,9 +178,20 @@ Section Discipline.
   Definition summary_okb (s : summary) : bool :=
     forallb (path_okb s) (s_paths s) && (negb (s_api s) || forallb (api_bentry_ok s) (s_borrowed s)).
 
-  (* only configuration structs of the root package may be classed "owned by the view" *)
+  (* policy: only the configuration of a per-goroutine view may be classed "owned by the view";
+     no summary acquires or releases the pseudo locks *)
+  Definition item_no_pseudo (it : item) : bool :=
+    match it with
+    | IEv (SAcq _ lk _) | IEv (SRel _ lk _) =>
+        (if string_dec lk unshared then false else true) && (if string_dec lk own then false else true)
+    | _ => true
+    end.
+
   Definition policy_okb : bool :=
-    forallb (fun fc => match snd fc with COwned => prefix "avfs." (fst fc) | _ => true end) tbl.
+    forallb (fun fc => match snd fc with
+                       | COwned => prefix "memfs.MemFS:" (fst fc) || prefix "memfs.MemIOFS:" (fst fc)
+                       | _ => true end) tbl
+    && forallb (fun s => forallb (forallb item_no_pseudo) (s_paths s)) summaries.
 
   Definition table_okb : bool := policy_okb && forallb summary_okb summaries.
 
@@ -545,13 +558,22 @@ Section Discipline.
     eapply disciplined_prefix. rewrite <- E. now apply goroutine_disciplined.
   Qed.
 
+  (* the lock that orders the accesses to a field: its guard, or the ownership of the view *)
+  Definition field_lock (f : field) : option lname :=
+    match assoc f tbl with
+    | Some (CGuard lk) => Some lk
+    | Some COwned => Some own
+    | _ => None
+    end.
+
   Definition guarded_field (f : field) (lk : lname) : Prop :=
-    assoc f tbl = Some (CGuard lk) /\ kf_field f = false.
+    field_lock f = Some lk /\ kf_field f = false.
 
   Lemma guarded_field_by n f lk :
     guarded_field f lk -> guarded_by clock cloc (creq ARd) (creq AWr) (Shared n, f) (Shared n, lk).
   Proof.
-    intros [Ha Hk]. unfold guarded_by, creq, req_of; cbn. rewrite Hk, Ha. split; reflexivity.
+    intros [Ha Hk]. unfold guarded_by, creq, req_of, field_lock in *; cbn. rewrite Hk.
+    destruct (assoc f tbl) as [[lk'| | |]|]; try discriminate; inversion Ha; subst; split; reflexivity.
   Qed.
 
   (* No data race on any shared object's field guarded by a lock, in any program of
@@ -589,42 +611,65 @@ Section Discipline.
     - now apply guarded_field_by.
   Qed.
 
-  (* fields classed immutable (and not excluded by a finding) are never written on shared objects *)
-  Theorem program_immutable : forallb summary_okb summaries = true ->
-    forall tr, program_trace tr ->
-    forall t n f, assoc f tbl = Some CImmutable -> kf_field f = false -> ~ In (t, Wr (Shared n, f)) tr.
+  (* ---- the pseudo lock "unshared" is never acquired, so nothing that needs it happens *)
+
+  Lemma den_no_unshared : policy_okb = true ->
+    forall rho its tr, den rho its tr ->
+    forallb item_no_pseudo its = true ->
+    forall c m, ~ In (Acq (c, unshared) m) tr.
   Proof.
-    intros Hall tr Hp t n f Ha Hk. eapply never_written.
-    - now apply program_disciplined.
-    - unfold creq, req_of; cbn. rewrite Hk, Ha. reflexivity.
+    intros Hpol rho its tr Hden.
+    induction Hden as [rho | rho e k tr Hden IH | rho g sigma k tr Hden IH
+                      | rho star g sigma s p rho' tr1 k tr Hl Hp Hwf' Hsig Hden1 IH1 Hden2 IH2];
+      intros Hits c m Hin.
+    - exact Hin.
+    - cbn [forallb] in Hits. apply andb_true_iff in Hits. destruct Hits as [He Hk].
+      destruct Hin as [E|Hin]; [|eapply IH; eauto].
+      destruct e as [o lk m0|o lk m0|[| |] o f]; cbn in E; try discriminate.
+      inversion E; subst. cbn in He. destruct (string_dec unshared unshared); [discriminate|congruence].
+    - cbn [forallb] in Hits. apply andb_true_iff in Hits. eapply IH; [apply Hits|eauto].
+    - cbn [forallb] in Hits. apply andb_true_iff in Hits. destruct Hits as [_ Hk].
+      apply in_app_or in Hin. destruct Hin as [Hin|Hin].
+      + eapply IH1; [|exact Hin].
+        unfold policy_okb in Hpol. apply andb_true_iff in Hpol. destruct Hpol as [_ Hs].
+        rewrite forallb_forall in Hs. specialize (Hs s (lookup_In _ _ Hl)).
+        rewrite forallb_forall in Hs. apply Hs. exact Hp.
+      + eapply IH2; [|exact Hin]. destruct star; [cbn [forallb]; rewrite Hk; reflexivity|exact Hk].
   Qed.
 
-  (* fields accessed atomically are never written by a plain store on shared objects *)
-  Theorem program_atomic : forallb summary_okb summaries = true ->
-    forall tr, program_trace tr ->
-    forall t n f, assoc f tbl = Some CAtomic -> kf_field f = false -> ~ In (t, Wr (Shared n, f)) tr.
+  Lemma calls_no_unshared : policy_okb = true ->
+    forall vs cs, calls vs cs -> forall c m, ~ In (Acq (c, unshared) m) cs.
   Proof.
-    intros Hall tr Hp t n f Ha Hk. eapply never_written.
-    - now apply program_disciplined.
-    - unfold creq, req_of; cbn. rewrite Hk, Ha. reflexivity.
+    intros Hpol vs cs Hc. induction Hc as [|s p rho tr rest Hs Hapi Hp Hwf Hden Hown Hc IH]; intros c m Hin; [exact Hin|].
+    apply in_app_or in Hin. destruct Hin as [Hin|Hin]; [|eapply IH; eauto].
+    eapply (den_no_unshared Hpol); [exact Hden| |exact Hin].
+    unfold policy_okb in Hpol. apply andb_true_iff in Hpol. destruct Hpol as [_ Hq].
+    rewrite forallb_forall in Hq. specialize (Hq s Hs). rewrite forallb_forall in Hq. apply Hq. exact Hp.
   Qed.
 
-  (* two writes of view configuration (owned fields) by different goroutines are ordered
-     through the ownership of the view *)
-  Theorem program_owned_writes : forallb summary_okb summaries = true ->
-    forall tr, program_trace tr ->
-    forall a t1 b t2 c n f f',
-      tr = a ++ (t1, Wr (Shared n, f)) :: b ++ (t2, Wr (Shared n, f')) :: c -> t1 <> t2 ->
-      assoc f tbl = Some COwned -> kf_field f = false ->
-      assoc f' tbl = Some COwned -> kf_field f' = false ->
-      exists b1 b2 b3, b = b1 ++ (t1, Rel (Shared n, own) W) :: b2 ++ (t2, Acq (Shared n, own) W) :: b3.
+  Lemma program_no_unshared : policy_okb = true ->
+    forall tr, program_trace tr -> forall c t m, ~ In (t, Acq (c, unshared) m) tr.
   Proof.
-    intros Hall tr Hp a t1 b t2 c n f f' Htr Hne Ha Hk Ha' Hk'.
-    eapply writes_ordered; eauto.
-    - exact (proj1 Hp).
-    - now apply program_disciplined.
-    - unfold creq, req_of; cbn. rewrite Hk, Ha. reflexivity.
-    - unfold creq, req_of; cbn. rewrite Hk', Ha'. reflexivity.
+    intros Hpol tr [_ Hp] c t m Hin. apply proj_In in Hin.
+    destruct (Hp t) as (vs & cs & rest & Hc & E).
+    assert (Hg : In (Acq (c, unshared) m) (goroutine vs cs)) by (rewrite E; apply in_or_app; left; exact Hin).
+    unfold goroutine in Hg. apply in_app_or in Hg. destruct Hg as [Hg|Hg].
+    - unfold take_views in Hg. apply in_map_iff in Hg. destruct Hg as (v & E' & _). inversion E'.
+    - eapply calls_no_unshared; eauto.
+  Qed.
+
+  (* fields classed immutable or atomic (and not excluded by a finding) are never written by a
+     plain store on shared objects *)
+  Theorem program_never_written : table_okb = true ->
+    forall tr, program_trace tr ->
+    forall t n f, (assoc f tbl = Some CImmutable \/ assoc f tbl = Some CAtomic) -> kf_field f = false ->
+      ~ In (t, Wr (Shared n, f)) tr.
+  Proof.
+    intros Hok tr Hp t n f Ha Hk.
+    unfold table_okb in Hok. apply andb_true_iff in Hok. destruct Hok as [Hpol Hall].
+    eapply (needs_unacquired clock cloc clock_dec (creq ARd) (creq AWr) tr (program_disciplined Hall tr Hp)
+              (Shared n, unshared) (fun t' m' => program_no_unshared Hpol tr Hp (Shared n) t' m') t (Wr (Shared n, f)) W).
+    unfold creq, req_of; cbn. rewrite Hk. destruct Ha as [-> | ->]; reflexivity.
   Qed.
 
 End Discipline.
